@@ -3055,6 +3055,9 @@ def distributed_shampoo(
     Returns:
       New optimizer states after computing the preconditioner.
     """
+    if not statistics:
+      return states
+
     num_devices = lax.psum(1, batch_axis_name)
     num_statistics = len(statistics)
     quantized_dtype = quantized_dtype_for_second_moment_statistics_buffers()
